@@ -4,4 +4,525 @@ import DswModel.Lemmas.DeBruijn
 /-! Helper lemmas for `calculate_intersection_score` / `remove_nasty_arc` (C19). -/
 namespace Dsw
 
+/-! ## the score table -/
+
+/-- shape of the score table and "positive only on good cells". -/
+def ScoreInv (n : Nat) (G : Nat → Nat → Prop) (sc : Array (Array Nat)) : Prop :=
+  sc.size = n ∧ (∀ v, v < n → (sc.getD v #[]).size = 4) ∧
+    ∀ v j : Nat, 0 < (sc.getD v #[]).getD j 0 → G v j
+
+/-- row `u` after `addScore sc v j s`. -/
+theorem getD_addScore_rm (sc : Array (Array Nat)) (v j s u : Nat) :
+    (addScore sc v j s).getD u #[] =
+      if u = v then (sc.getD v #[]).setIfInBounds j ((sc.getD v #[]).getD j 0 + s)
+      else sc.getD u #[] := by
+  unfold addScore
+  by_cases huv : u = v
+  · subst huv
+    by_cases h : u < sc.size
+    · simp [getD_setIfInBounds_self _ _ _ _ h]
+    · rw [getD_setIfInBounds_oob _ _ _ _ _ (by omega)]
+      have : sc.getD u #[] = #[] := by simp [Array.getD, h]
+      simp [this]
+  · rw [getD_setIfInBounds_ne _ _ _ _ _ (Ne.symm huv)]
+    simp [huv]
+
+theorem scoreInv_addScore {n : Nat} {G : Nat → Nat → Prop} {sc : Array (Array Nat)}
+    (cur c s : Nat) (h : ScoreInv n G sc) (hg : G cur c) : ScoreInv n G (addScore sc cur c s) := by
+  obtain ⟨h1, h2, h3⟩ := h
+  refine ⟨by simpa [addScore] using h1, fun v hv => ?_, fun v j hp => ?_⟩
+  · rw [getD_addScore_rm]
+    split
+    · next he => subst he; simpa using h2 v hv
+    · exact h2 v hv
+  · rw [getD_addScore_rm] at hp
+    by_cases hvc : v = cur
+    · subst hvc
+      by_cases hjc : j = c
+      · subst hjc; exact hg
+      · rw [if_pos rfl, getD_setIfInBounds_ne _ _ _ _ _ (Ne.symm hjc)] at hp
+        exact h3 v j hp
+    · rw [if_neg hvc] at hp
+      exact h3 v j hp
+
+theorem scoreInv_init (k : Nat) (G : Nat → Nat → Prop) :
+    ScoreInv (4 ^ k) G (Array.replicate (4 ^ k) (Array.replicate 4 0)) := by
+  refine ⟨by simp, fun v hv => ?_, fun v j hp => ?_⟩
+  · simp [Array.getD, hv]
+  · exfalso
+    by_cases hv : v < 4 ^ k
+    · by_cases hj : j < 4
+      · simp [Array.getD, hv, hj] at hp
+      · simp [Array.getD, hv, hj] at hp
+    · simp [Array.getD, hv] at hp
+
+theorem mem_pairsBelow_rm {n : Nat} {ij : Nat × Nat} (h : ij ∈ pairsBelow n) : ij.1 < n ∧ ij.2 < n := by
+  simp only [pairsBelow, List.mem_flatMap, List.mem_map, List.mem_filter, List.mem_range] at h
+  obtain ⟨i, hi, j, ⟨hj, _⟩, rfl⟩ := h
+  exact ⟨hi, hj⟩
+
+theorem getD_mem_of_lt_rm {α} (l : List α) (i : Nat) (d : α) (h : i < l.length) : l.getD i d ∈ l := by
+  simp [List.getD, h]
+
+theorem scoreInv_calc (k : Nat) (m : LMap) (ins del : Bool) (G : Nat → Nat → Prop)
+    (hm : ∀ p ∈ m, ∀ w ∈ p.2, G p.1 (w % 4)) :
+    ScoreInv (4 ^ k) G (calculateIntersectionScore m k ins del) := by
+  unfold calculateIntersectionScore
+  refine foldl_invariant (ScoreInv (4 ^ k) G) _ _ ?_ _ (scoreInv_init k G)
+  intro sc p hp hsc
+  have hG : ∀ w ∈ p.2, G p.1 (w % 4) := hm p hp
+  dsimp only
+  have h1 : ScoreInv (4 ^ k) G ((pairsBelow (p.2.map fun w => leafMap m (k - 1) [w]).length).foldl (fun sc ij =>
+        let s := unionCount ((p.2.map fun w => leafMap m (k - 1) [w]).getD ij.1 [])
+          ((p.2.map fun w => leafMap m (k - 1) [w]).getD ij.2 [])
+        addScore (addScore sc p.1 (p.2.getD ij.1 0 % 4) s) p.1 (p.2.getD ij.2 0 % 4) s) sc) := by
+    refine foldl_invariant (ScoreInv (4 ^ k) G) _ _ ?_ _ hsc
+    intro s ij hij hs
+    have := mem_pairsBelow_rm hij
+    rw [List.length_map] at this
+    exact scoreInv_addScore _ _ _ (scoreInv_addScore _ _ _ hs (hG _ (getD_mem_of_lt_rm _ _ _ this.1)))
+      (hG _ (getD_mem_of_lt_rm _ _ _ this.2))
+  have h2 : ∀ sc0, ScoreInv (4 ^ k) G sc0 → ScoreInv (4 ^ k) G (if ins = true then
+        p.2.zipIdx.foldl (fun sc fi =>
+          match m.get? fi.1 with
+          | none => sc
+          | some ls => ls.foldl (fun sc w =>
+              addScore sc p.1 (fi.1 % 4) (unionCount ((p.2.map fun w => leafMap m (k - 1) [w]).getD fi.2 []) (leafMap m (k - 1) [w]))) sc) sc0
+      else sc0) := by
+    intro sc0 h0
+    split
+    · refine foldl_invariant (ScoreInv (4 ^ k) G) _ _ ?_ _ h0
+      intro s fi hfi hs
+      split
+      · exact hs
+      · refine foldl_invariant (ScoreInv (4 ^ k) G) _ _ ?_ _ hs
+        intro s' w _ hs'
+        exact scoreInv_addScore _ _ _ hs' (hG _ (List.fst_mem_of_mem_zipIdx hfi))
+    · exact h0
+  split
+  · refine foldl_invariant (ScoreInv (4 ^ k) G) _ _ ?_ _ (h2 _ h1)
+    intro s fi hfi hs
+    exact scoreInv_addScore _ _ _ hs (hG _ (List.fst_mem_of_mem_zipIdx hfi))
+  · exact h2 _ h1
+
+/-! ## de Bruijn sub-tables and their latter maps -/
+
+theorem mod4_shift_rm (k v j : Nat) (hk : 1 ≤ k) (hj : j < 4) : (v * 4 + j) % 4 ^ k % 4 = j := by
+  obtain ⟨k', rfl⟩ : ∃ k', k = k' + 1 := ⟨k - 1, by omega⟩
+  rw [four_pow_succ, shift_mod _ _ _ hj]
+  omega
+
+theorem mem_live_rm (a : Acc) (v : Int) (j : Nat) : j ∈ a.live v ↔ j < 4 ∧ 0 ≤ a.ent v j := by
+  simp [Acc.live]
+
+theorem live_nodup_rm (a : Acc) (v : Int) : (a.live v).Nodup := by
+  unfold Acc.live
+  exact List.Pairwise.filter _ List.nodup_range
+
+theorem mem_obtainVertices_lt_rm {a : Acc} {v : Nat} (h : v ∈ obtainVertices a) : v < a.size := by
+  simp only [obtainVertices, List.mem_filter, List.mem_range] at h
+  exact h.1
+
+/-- a live entry of a de Bruijn sub-table sits in the column of its last digit. -/
+theorem ent_of_mem_live_rm {k : Nat} {a : Acc} {v j : Nat} (hk : 1 ≤ k) (h : WFdB k a) (hv : v < 4 ^ k)
+    (hj : j ∈ a.live (v : Int)) :
+    a.ent (v : Int) j = (((v * 4 + j) % 4 ^ k : Nat) : Int) ∧ (a.ent (v : Int) j).toNat % 4 = j := by
+  rw [mem_live_rm] at hj
+  have := (h.2 v hv).2 j hj.1
+  rcases this with h1 | h1
+  · omega
+  · refine ⟨h1, ?_⟩
+    rw [h1, Int.toNat_natCast, mod4_shift_rm k v j hk hj.1]
+
+theorem mem_liveEntries_rm {k : Nat} {a : Acc} {v w : Nat} (hk : 1 ≤ k) (h : WFdB k a) (hv : v < 4 ^ k)
+    (hw : w ∈ a.liveEntries (v : Int)) :
+    w % 4 ∈ a.live (v : Int) ∧ a.ent (v : Int) (w % 4) = (w : Int) := by
+  simp only [Acc.liveEntries, List.mem_map] at hw
+  obtain ⟨j, hj, rfl⟩ := hw
+  have := ent_of_mem_live_rm hk h hv hj
+  rw [this.2]
+  refine ⟨hj, ?_⟩
+  have := this.1; omega
+
+theorem latterMap_good {k : Nat} {a : Acc} (hk : 1 ≤ k) (h : WFdB k a) :
+    ∀ p ∈ accessorToLatterMap a, ∀ w ∈ p.2, 0 ≤ a.ent (p.1 : Int) (w % 4) := by
+  intro p hp w hw
+  simp only [accessorToLatterMap, List.mem_map] at hp
+  obtain ⟨v, hv, rfl⟩ := hp
+  have hv' : v < 4 ^ k := by rw [← h.1]; exact mem_obtainVertices_lt_rm hv
+  rw [(mem_liveEntries_rm hk h hv' hw).2]
+  omega
+
+/-- `get?` on a map built from a key list. -/
+theorem get?_map_keys_rm (l : List Nat) (f : Nat → List Nat) (x : Nat) :
+    LMap.get? (l.map fun v => (v, f v)) x = if x ∈ l then some (f x) else none := by
+  unfold LMap.get?
+  induction l with
+  | nil => simp
+  | cons y ys ih =>
+    simp only [List.map_cons, List.find?_cons]
+    by_cases hyx : y = x
+    · subst hyx; simp
+    · have : (y == x) = false := by simpa using hyx
+      simp only [this]
+      rw [ih]
+      have : x ≠ y := Ne.symm hyx
+      simp [this]
+
+theorem getD_eq_getElem_of_lt_rm {α} (r : Array α) (i : Nat) (d : α) (hi : i < r.size) :
+    r.getD i d = r[i] := by
+  simp [Array.getD, hi]
+
+/-- a row has an entry different from `-1` iff it has a live column. -/
+theorem hasArc_iff_rm {k : Nat} {a : Acc} {v : Nat} (h : WFdB k a) (hv : v < 4 ^ k) :
+    (a.getD v #[]).any (fun e => e + 1 != 0) = true ↔ a.live (v : Int) ≠ [] := by
+  have hsz := (h.2 v hv).1
+  rw [Array.any_eq_true]
+  constructor
+  · rintro ⟨i, hi, hne⟩
+    have hi4 : i < 4 := by omega
+    have hent : a.ent (v : Int) i = (a.getD v #[])[i] := by
+      rw [Acc.ent_natCast]; exact getD_eq_getElem_of_lt_rm _ _ _ hi
+    have hc := (h.2 v hv).2 i hi4
+    have : (a.getD v #[])[i] + 1 ≠ 0 := by simpa using hne
+    have hmem : i ∈ a.live (v : Int) := by
+      rw [mem_live_rm]; refine ⟨hi4, ?_⟩; omega
+    intro hnil; rw [hnil] at hmem; cases hmem
+  · intro hne
+    obtain ⟨j, hj⟩ := List.exists_mem_of_ne_nil _ hne
+    rw [mem_live_rm] at hj
+    have hi : j < (a.getD v #[]).size := by omega
+    refine ⟨j, hi, ?_⟩
+    have hent : a.ent (v : Int) j = (a.getD v #[])[j] := by
+      rw [Acc.ent_natCast]; exact getD_eq_getElem_of_lt_rm _ _ _ hi
+    have : (a.getD v #[])[j] + 1 ≠ 0 := by omega
+    simpa using this
+
+/-! ## maxima -/
+
+theorem foldl_max_ge_init_rm (l : List Nat) (i : Nat) : i ≤ l.foldl max i := by
+  induction l generalizing i with
+  | nil => exact Nat.le_refl _
+  | cons x xs ih => exact Nat.le_trans (Nat.le_max_left i x) (ih _)
+
+theorem foldl_max_ge_mem_rm (l : List Nat) (i x : Nat) (h : x ∈ l) : x ≤ l.foldl max i := by
+  induction l generalizing i with
+  | nil => cases h
+  | cons y ys ih =>
+    rcases List.mem_cons.1 h with rfl | h
+    · exact Nat.le_trans (Nat.le_max_right i x) (foldl_max_ge_init_rm _ _)
+    · exact ih _ h
+
+theorem foldl_max_le_rm (l : List Nat) (i b : Nat) (hi : i ≤ b) (h : ∀ x ∈ l, x ≤ b) :
+    l.foldl max i ≤ b := by
+  induction l generalizing i with
+  | nil => exact hi
+  | cons y ys ih =>
+    exact ih _ (Nat.max_le.2 ⟨hi, h y (by simp)⟩) (fun x hx => h x (by simp [hx]))
+
+/-- the running maximum over all rows dominates the start value. -/
+theorem foldl2_max_ge_init_rm (ls : List (Array Nat)) (i : Nat) :
+    i ≤ ls.foldl (fun x r => r.foldl max x) i := by
+  induction ls generalizing i with
+  | nil => exact Nat.le_refl _
+  | cons r rs ih =>
+    rw [List.foldl_cons]
+    refine Nat.le_trans ?_ (ih _)
+    rw [← Array.foldl_toList]; exact foldl_max_ge_init_rm _ _
+
+theorem foldl2_max_ge_mem_rm (ls : List (Array Nat)) (i : Nat) (r : Array Nat) (x : Nat)
+    (hr : r ∈ ls) (hx : x ∈ r.toList) : x ≤ ls.foldl (fun x r => r.foldl max x) i := by
+  induction ls generalizing i with
+  | nil => cases hr
+  | cons r' rs ih =>
+    rcases List.mem_cons.1 hr with rfl | hr
+    · rw [List.foldl_cons]
+      refine Nat.le_trans ?_ (foldl2_max_ge_init_rm _ _)
+      rw [← Array.foldl_toList]; exact foldl_max_ge_mem_rm _ _ _ hx
+    · rw [List.foldl_cons]; exact ih _ hr
+
+/-- global maximum of a score table dominates every cell. -/
+theorem globalMax_ge_rm (sc : Array (Array Nat)) (v j : Nat) :
+    (sc.getD v #[]).getD j 0 ≤ sc.foldl (fun x r => r.foldl max x) 0 := by
+  by_cases hv : v < sc.size
+  · by_cases hj : j < (sc.getD v #[]).size
+    · rw [← Array.foldl_toList]
+      apply foldl2_max_ge_mem_rm _ _ (sc.getD v #[])
+      · have : sc.getD v #[] = sc[v] := by simp [Array.getD, hv]
+        rw [this]; simp
+      · have : ∀ (r : Array Nat) (hj : j < r.size), r.getD j 0 ∈ r.toList := by
+          intro r hj; simp [Array.getD, hj]
+        exact this _ hj
+    · have : (sc.getD v #[]).getD j 0 = 0 := by
+        generalize sc.getD v #[] = r at hj
+        simp [Array.getD, hj]
+      omega
+  · have : (sc.getD v #[]).getD j 0 = 0 := by simp [Array.getD, hv]
+    omega
+
+/-- if a list contains an upper bound of itself, `argmax` points at it. -/
+theorem argmax_spec_rm (l : List Nat) (mx : Nat) (hmem : mx ∈ l) (hle : ∀ x ∈ l, x ≤ mx) :
+    argmax l < l.length ∧ l.getD (argmax l) 0 = mx := by
+  have hmax : l.foldl max 0 = mx :=
+    Nat.le_antisymm (foldl_max_le_rm l 0 mx (Nat.zero_le _) hle) (foldl_max_ge_mem_rm l 0 mx hmem)
+  unfold argmax
+  rw [hmax]
+  have hlt : l.idxOf mx < l.length := List.idxOf_lt_length_of_mem hmem
+  refine ⟨hlt, ?_⟩
+  simp [List.getD, hlt]
+
+/-! ## erasing one element of a mapped list -/
+
+theorem eraseIdx_idxOf_map_rm (f : Nat → Nat) (l : List Nat) (x : Nat) (hx : x ∈ l) (hnd : l.Nodup)
+    (hinj : ∀ y ∈ l, f y = f x → y = x) :
+    (l.map f).eraseIdx ((l.map f).idxOf (f x)) = (l.filter (· != x)).map f := by
+  induction l with
+  | nil => cases hx
+  | cons y ys ih =>
+    rw [List.nodup_cons] at hnd
+    by_cases hyx : y = x
+    · subst hyx
+      have : ys.filter (· != y) = ys := by
+        rw [List.filter_eq_self]
+        intro z hz
+        have : z ≠ y := fun e => hnd.1 (e ▸ hz)
+        simpa using this
+      simp [this]
+    · have hx' : x ∈ ys := by
+        rcases List.mem_cons.1 hx with e | e
+        · exact absurd e.symm hyx
+        · exact e
+      have hf : f y ≠ f x := fun e => hyx (hinj y (by simp) e)
+      have hb : (f y == f x) = false := by simpa using hf
+      have hb' : (y != x) = true := by simpa using hyx
+      simp only [List.map_cons, List.idxOf_cons, hb, cond_false, List.eraseIdx_cons_succ,
+        List.filter_cons, hb', if_true]
+      rw [ih hx' hnd.2 (fun z hz => hinj z (by simp [hz]))]
+
+/-! ## `setEnt … (-1)` on the live columns -/
+
+theorem live_setEnt_ne_rm (a : Acc) (v j u : Nat) (x : Int) (h : u ≠ v) :
+    (a.setEnt v j x).live (u : Int) = a.live (u : Int) := by
+  unfold Acc.live
+  apply List.filter_congr
+  intro i _
+  rw [Acc.ent_setEnt_ne _ _ _ _ _ _ (Or.inl h)]
+
+theorem liveEntries_setEnt_ne_rm (a : Acc) (v j u : Nat) (x : Int) (h : u ≠ v) :
+    (a.setEnt v j x).liveEntries (u : Int) = a.liveEntries (u : Int) := by
+  unfold Acc.liveEntries
+  rw [live_setEnt_ne_rm _ _ _ _ _ h]
+  apply List.map_congr_left
+  intro i _
+  rw [Acc.ent_setEnt_ne _ _ _ _ _ _ (Or.inl h)]
+
+theorem live_setEnt_self_rm (a : Acc) (v j : Nat) (hj : j < (a.getD v #[]).size) :
+    (a.setEnt v j (-1)).live (v : Int) = (a.live (v : Int)).filter (· != j) := by
+  unfold Acc.live
+  rw [List.filter_filter]
+  apply List.filter_congr
+  intro i _
+  by_cases hij : i = j
+  · subst hij
+    rw [Acc.ent_setEnt_self _ _ _ _ hj]
+    simp
+  · rw [Acc.ent_setEnt_ne _ _ _ _ _ _ (Or.inr hij)]
+    simp [hij]
+
+theorem liveEntries_setEnt_self_rm (a : Acc) (v j : Nat) (hj : j < (a.getD v #[]).size) :
+    (a.setEnt v j (-1)).liveEntries (v : Int) =
+      ((a.live (v : Int)).filter (· != j)).map fun i => (a.ent (v : Int) i).toNat := by
+  unfold Acc.liveEntries
+  rw [live_setEnt_self_rm _ _ _ hj]
+  apply List.map_congr_left
+  intro i hi
+  have : i ≠ j := by
+    have := (List.mem_filter.1 hi).2
+    simpa using this
+  rw [Acc.ent_setEnt_ne _ _ _ _ _ _ (Or.inr this)]
+
+/-! ## list plumbing -/
+
+theorem map_filter_filterMap_rm {α β γ} (l : List α) (p : α → Bool) (g : α → β) (h : β → Option γ) :
+    ((l.filter p).map g).filterMap h = l.filterMap (fun v => if p v then h (g v) else none) := by
+  induction l with
+  | nil => rfl
+  | cons x xs ih =>
+    by_cases hp : p x = true
+    · simp [hp, List.filterMap_cons, ih]
+    · simp [hp, ih]
+
+theorem map_filter_eq_filterMap'_rm {α β} (l : List α) (p : α → Bool) (g : α → β) :
+    (l.filter p).map g = l.filterMap (fun v => if p v then some (g v) else none) := by
+  have := map_filter_filterMap_rm l p g some
+  rwa [List.filterMap_some] at this
+
+theorem sum_map_range_update_rm (f g : Nat → Nat) (n i : Nat) (hi : i < n)
+    (hne : ∀ v, v ≠ i → g v = f v) (hi' : g i + 1 = f i) :
+    ((List.range n).map g).sum + 1 = ((List.range n).map f).sum := by
+  induction n with
+  | zero => omega
+  | succ n ih =>
+    rw [List.range_succ, List.map_append, List.map_append, List.sum_append, List.sum_append]
+    simp only [List.map_cons, List.map_nil, List.sum_cons, List.sum_nil, Nat.add_zero]
+    by_cases hin : i = n
+    · subst hin
+      have : (List.range i).map g = (List.range i).map f := by
+        apply List.map_congr_left
+        intro v hv
+        exact hne v (by have := List.mem_range.1 hv; omega)
+      rw [this]; omega
+    · have := ih (by omega)
+      rw [hne n (Ne.symm hin)]; omega
+
+/-! ## one removal -/
+
+theorem filterMap_congr_mem_rm {α β} (l : List α) (f g : α → Option β) (h : ∀ x ∈ l, f x = g x) :
+    l.filterMap f = l.filterMap g := by
+  induction l with
+  | nil => rfl
+  | cons x xs ih =>
+    rw [List.filterMap_cons, List.filterMap_cons, h x (by simp), ih (fun y hy => h y (by simp [hy]))]
+
+theorem length_filter_ne_rm (l : List Nat) (x : Nat) (hx : x ∈ l) (hnd : l.Nodup) :
+    (l.filter (· != x)).length + 1 = l.length := by
+  induction l with
+  | nil => cases hx
+  | cons y ys ih =>
+    rw [List.nodup_cons] at hnd
+    by_cases hyx : y = x
+    · subst hyx
+      have : ys.filter (· != y) = ys := by
+        rw [List.filter_eq_self]
+        intro z hz
+        have : z ≠ y := fun e => hnd.1 (e ▸ hz)
+        simpa using this
+      simp [this]
+    · have hx' : x ∈ ys := by
+        rcases List.mem_cons.1 hx with e | e
+        · exact absurd e.symm hyx
+        · exact e
+      have hb' : (y != x) = true := by simpa using hyx
+      simp only [List.filter_cons, hb', if_true, List.length_cons]
+      rw [ih hx' hnd.2]
+
+/-- removing a live arc from the accessor is `erase1` on the latter map. -/
+theorem latterMap_setEnt_erase {k : Nat} {a : Acc} {v j : Nat} (hk : 1 ≤ k) (h : WFdB k a)
+    (hv : v < 4 ^ k) (hj : j ∈ a.live (v : Int)) :
+    accessorToLatterMap (a.setEnt v j (-1)) =
+      (accessorToLatterMap a).erase1 v (a.ent (v : Int) j).toNat := by
+  have h' : WFdB k (a.setEnt v j (-1)) := wfdb_setEnt k a v j (-1) h (Or.inl rfl)
+  unfold accessorToLatterMap LMap.erase1 obtainVertices
+  rw [map_filter_filterMap_rm, map_filter_eq_filterMap'_rm, Acc.size_setEnt]
+  apply filterMap_congr_mem_rm
+  intro u hu
+  have hu : u < 4 ^ k := by rw [← h.1]; exact List.mem_range.1 hu
+  dsimp only
+  by_cases huv : u = v
+  · subst huv
+    have hrow : j < (a.getD u #[]).size := by
+      rw [(h.2 u hu).1]; exact ((mem_live_rm _ _ _).1 hj).1
+    have hne : a.live (u : Int) ≠ [] := fun e => by rw [e] at hj; cases hj
+    have hL : (a.setEnt u j (-1)).liveEntries (u : Int) =
+        (a.liveEntries (u : Int)).eraseIdx ((a.liveEntries (u : Int)).idxOf (a.ent (u : Int) j).toNat) := by
+      rw [liveEntries_setEnt_self_rm _ _ _ hrow]
+      unfold Acc.liveEntries
+      rw [eraseIdx_idxOf_map_rm (fun i => (a.ent (u : Int) i).toNat) _ j hj (live_nodup_rm _ _)]
+      intro y hy hyj
+      have h1 := (ent_of_mem_live_rm hk h hu hy).2
+      have h2 := (ent_of_mem_live_rm hk h hu hj).2
+      omega
+    rw [if_pos ((hasArc_iff_rm h hu).2 hne), if_pos rfl, ← hL]
+    by_cases he : (a.setEnt u j (-1)).live (u : Int) = []
+    · have hn : ¬ ((a.setEnt u j (-1)).getD u #[]).any (fun e => e + 1 != 0) = true :=
+        fun hc => (hasArc_iff_rm h' hu).1 hc he
+      have he' : (a.setEnt u j (-1)).liveEntries (u : Int) = [] := by
+        unfold Acc.liveEntries; rw [he]; rfl
+      rw [if_neg hn, he']; rfl
+    · have he' : ¬ ((a.setEnt u j (-1)).liveEntries (u : Int)).isEmpty = true := by
+        unfold Acc.liveEntries
+        simpa using he
+      rw [if_pos ((hasArc_iff_rm h' hu).2 he), if_neg he']
+  · rw [Acc.getD_setEnt, if_neg huv, liveEntries_setEnt_ne_rm _ _ _ _ _ huv]
+    simp [huv]
+
+/-- removing a live arc lowers the arc count by one. -/
+theorem arcCount_setEnt {k : Nat} {a : Acc} {v j : Nat} (h : WFdB k a)
+    (hv : v < 4 ^ k) (hj : j ∈ a.live (v : Int)) :
+    ((List.range (a.setEnt v j (-1)).size).map fun (u : Nat) =>
+        ((a.setEnt v j (-1)).live (u : Int)).length).sum + 1 =
+      ((List.range a.size).map fun (u : Nat) => (a.live (u : Int)).length).sum := by
+  rw [Acc.size_setEnt]
+  apply sum_map_range_update_rm _ _ _ v (by rw [h.1]; exact hv)
+  · intro u hu
+    rw [live_setEnt_ne_rm _ _ _ _ _ hu]
+  · have hrow : j < (a.getD v #[]).size := by
+      rw [(h.2 v hv).1]; exact ((mem_live_rm _ _ _).1 hj).1
+    rw [live_setEnt_self_rm _ _ _ hrow]
+    exact length_filter_ne_rm _ _ hj (live_nodup_rm _ _)
+
+theorem toList_getD_eq_rm {α} (r : Array α) (i : Nat) (d : α) : r.toList.getD i d = r.getD i d := by
+  by_cases h : i < r.size <;> simp [List.getD, Array.getD, h]
+
+theorem removeNastyArc_ok {k : Nat} {a : Acc} {ins del : Bool} {r : RemoveResult} (hk : 1 ≤ k)
+    (h : WFdB k a) (hr : removeNastyArc a (accessorToLatterMap a) ins del = .ok r) :
+    r.former < 4 ^ k ∧ ∃ j, j ∈ a.live (r.former : Int) ∧ a.ent (r.former : Int) j = (r.latter : Int) ∧
+      r.acc = a.setEnt r.former j (-1) ∧
+      r.lmap = (accessorToLatterMap a).erase1 r.former r.latter ∧
+      ∀ v j' : Nat,
+        ((calculateIntersectionScore (accessorToLatterMap a) k ins del).getD v #[]).getD j' 0 ≤
+        ((calculateIntersectionScore (accessorToLatterMap a) k ins del).getD r.former #[]).getD j 0 := by
+  unfold removeNastyArc at hr
+  simp only [h.1, log4_four_pow] at hr
+  generalize hsc : calculateIntersectionScore (accessorToLatterMap a) k ins del = sc at hr ⊢
+  split at hr
+  · cases hr
+  · next former tl heq =>
+    split at hr
+    · cases hr
+    · next ls hls =>
+      split at hr
+      · next hcont =>
+        cases hr
+        dsimp only
+        -- the chosen vertex
+        have hmemF := heq ▸ (List.mem_cons_self (a := former) (l := tl))
+        rw [List.mem_filter] at hmemF
+        obtain ⟨hfv, hfr⟩ := hmemF
+        have hfr' := List.mem_filter.1 (List.contains_iff_mem.1 hfr)
+        have hflt : former < 4 ^ k := by rw [← h.1]; exact mem_obtainVertices_lt_rm hfv
+        -- shape of the scores
+        have hinv := scoreInv_calc k (accessorToLatterMap a) ins del
+          (fun v j => 0 ≤ a.ent (v : Int) j) (latterMap_good hk h)
+        rw [hsc] at hinv
+        have hrow4 : (sc.getD former #[]).size = 4 := hinv.2.1 former hflt
+        -- the row contains the global maximum, which bounds it
+        obtain ⟨i, hi, hieq⟩ := Array.any_eq_true.1 hfr'.2
+        have hmxmem : Array.foldl (fun x r => Array.foldl max x r) 0 sc ∈ (sc.getD former #[]).toList := by
+          have : (sc.getD former #[])[i] = Array.foldl (fun x r => Array.foldl max x r) 0 sc := by
+            simpa using hieq
+          rw [← this]; simp
+        have hle : ∀ x ∈ (sc.getD former #[]).toList,
+            x ≤ Array.foldl (fun x r => Array.foldl max x r) 0 sc := by
+          intro x hx
+          obtain ⟨i', hi', rfl⟩ := List.mem_iff_getElem.1 hx
+          have := globalMax_ge_rm sc former i'
+          have h2 : (sc.getD former #[]).getD i' 0 = (sc.getD former #[]).toList[i'] := by
+            rw [getD_eq_getElem_of_lt_rm _ _ _ (by simpa using hi')]; simp
+          rw [← h2]; exact this
+        obtain ⟨hlv, hlvmx⟩ := argmax_spec_rm _ _ hmxmem hle
+        generalize argmax (sc.getD former #[]).toList = lv at *
+        have hlv4 : lv < 4 := by rw [Array.length_toList, hrow4] at hlv; exact hlv
+        have hcell : (sc.getD former #[]).getD lv 0 = Array.foldl (fun x r => Array.foldl max x r) 0 sc := by
+          rw [← hlvmx, toList_getD_eq_rm]
+        -- the latter map
+        unfold accessorToLatterMap at hls
+        rw [get?_map_keys_rm, if_pos hfv] at hls
+        cases hls
+        have hmemL := mem_liveEntries_rm hk h hflt (List.contains_iff_mem.1 hcont)
+        rw [mod4_shift_rm k former lv hk hlv4] at hmemL
+        refine ⟨hflt, lv, hmemL.1, hmemL.2, rfl, rfl, fun v j' => ?_⟩
+        rw [hcell]; exact globalMax_ge_rm sc v j'
+      · cases hr
+
 end Dsw
